@@ -159,7 +159,7 @@ void DeMorganSimplifier::find_join_negations()
 void DeMorganSimplifier::add_negation_for_operands(NodeId node_id)
 {
     CELER_ASSUME(std::holds_alternative<Joined>(tree_[this->dealias(node_id)]));
-    auto& [op, operands] = std::get<Joined>(tree_[node_id]);
+    auto& [op, operands] = std::get<Joined>(tree_[this->dealias(node_id)]);
 
     for (auto const& join_operand : operands)
     {
